@@ -17,3 +17,6 @@ mod log {
     pub(crate) use noop as warn;
     pub(crate) use noop as error;
 }
+// the flat unit file has no module tree: crate::datatypes::X, crate::nogoods::X are X
+#[allow(unused_imports)] pub mod datatypes { pub use super::*; }
+#[allow(unused_imports)] pub mod nogoods { pub use super::*; }
